@@ -199,7 +199,7 @@ def style_of(cfg: dict, name: str) -> bool:
 
 def run_one(cfg: dict, schedule: tuple, seed: int, depth: int) -> dict:
     """One execution.  Returns violations [(key, what)], avail (in-flight count per main-round step), obs, trace."""
-    cfg = {"style": "old", "k": 1, "pick": 0, "ports": "shift", "warm": "warm", "via": "x-walked", **cfg}
+    cfg = {"style": "old", "k": 1, "pick": 0, "ports": "shift", "warm": "warm", "via": "x-walked", "rewarm": "1", **cfg}
     w = IntroWorld(cfg, seed)
     viol: list = []
     try:
@@ -208,13 +208,25 @@ def run_one(cfg: dict, schedule: tuple, seed: int, depth: int) -> dict:
         cold = cfg["warm"] == "cold"
         b_walked = cfg["via"] == "b-walked"
         order = ([] if cold else ["A"]) + ["C"] + [f"D{i + 1}" for i in range(cfg["k"] - 1)]
+        rewarm = cfg["rewarm"] != "1"
+
+        def again(name: str) -> None:
+            # the periodic walk to a peer one already knows: the library picks the message style it was upgraded to
+            ov = w.ov[name]
+            pb = next((p for p in ov.get_peers() if w.name_of(p) == "B"), None)
+            if pb is not None:
+                w.call(name, ov.get_new_introduction, pb)
+                w.flush()
+
+        if not cold:        # A first (twice in the re-walk variants), so that A enters the round knowing only B
+            w.request_intro("A", B_ADDR, style_of(cfg, "A"))
+            w.flush()
+            if rewarm:
+                again("A")
         if b_walked:
             # B gets to know C by walking to it: C walks to the public D1, B walks to D1, D1 introduces C to B (and asks
             # C to puncture), B walks to what it was told.  B then has verified C from an introduction *response*.
             assert cfg["k"] >= 2
-            if not cold:
-                w.request_intro("A", B_ADDR, style_of(cfg, "A"))
-                w.flush()
             d1 = tuple(w.nodes["D1"].address)
             w.request_intro("C", d1, style_of(cfg, "C"))
             w.flush()
@@ -224,10 +236,19 @@ def run_one(cfg: dict, schedule: tuple, seed: int, depth: int) -> dict:
             w.flush()
             walkers = [f"D{i + 1}" for i in range(1, cfg["k"] - 1)]
         else:
-            walkers = order
+            walkers = [n for n in order if n != "A"]
         for name in walkers:
             w.request_intro(name, B_ADDR, style_of(cfg, name))
             w.flush()
+        if rewarm:          # everybody asks B a second time (in b-walked worlds this is C's first request to B)
+            for name in (["C"] if b_walked else []) + walkers:
+                again(name)
+        if cfg["rewarm"] == "2+b":      # ... and B itself asks C once more
+            ov_b = w.ov["B"]
+            pc = next((p for p in ov_b.get_peers() if w.name_of(p) == "C"), None)
+            if pc is not None:
+                w.call("B", ov_b.get_new_introduction, pc)
+                w.flush()
         learnt = {n: tuple(w.ov[n].my_estimated_wan) == w.public_address_of(n) for n in order if n != "D1" or not b_walked}
         b_knows = w.peers_of("B")
         w.expire_sessions(B_ADDR)
@@ -332,7 +353,7 @@ def run_one(cfg: dict, schedule: tuple, seed: int, depth: int) -> dict:
         reasons = tuple(sorted({r["reason"] for r in w.drop_log if r["phase"] == "main"}))
         learnt["A"] = tuple(ov_a.my_estimated_wan) == w.public_address_of("A")
         obs = (cfg["placement"], cfg["ta"], tx, cfg["style"], punctured_first, first, second, reasons,
-               all(learnt.values()), cfg["warm"], cfg["ports"], cfg["via"])
+               all(learnt.values()), cfg["warm"], cfg["ports"], cfg["via"], cfg["rewarm"])
         return {"viol": viol, "avail": avail, "obs": obs, "trace": trace, "introduced": x,
                 "offered": len(w.offered or ())}
     finally:
@@ -378,7 +399,24 @@ def base_configs(thorough: bool) -> list[dict]:
                         if pick > 0 and (via == "b-walked" or (placement == "diff" and tc != "port")):
                             continue
                         out.append({"placement": placement, "ta": ta, "tc": tc, "style": style, "k": k, "pick": pick,
-                                    "ports": ports, "warm": warm, "via": via})
+                                    "ports": ports, "warm": warm, "via": via, "rewarm": "1"})
+    # re-walk variants: every warm-up walker asks B twice (the second time in whatever style the library upgraded to),
+    # optionally B then asks C again.  All same-box placements; different boxes: all 16 (thorough) / 2 (quick).
+    diff = [p for p in pairs if p[0] == "diff" and (thorough or (p[1], p[2]) in (("port", "port"), ("none", "none")))]
+    styles = ("old", "new", "A-new", "X-new") if thorough else ("old", "new")
+    for rewarm in ("2", "2+b"):
+        for style in styles:
+            for warm, ks in (("warm", (1, 3)), ("cold", (1,))):
+                for placement, ta, tc in [p for p in pairs if p[0] == "same"] + diff:
+                    if style in ("A-new", "X-new") and placement != "same":
+                        continue
+                    for k in ks:
+                        for pick in range(k if placement == "same" else 1):
+                            out.append({"placement": placement, "ta": ta, "tc": tc, "style": style, "k": k, "pick": pick,
+                                        "ports": "shift", "warm": warm, "via": "x-walked", "rewarm": rewarm})
+                    if rewarm == "2" and warm == "warm" and style in ("old", "new"):
+                        out.append({"placement": placement, "ta": ta, "tc": tc, "style": style, "k": 2, "pick": 0,
+                                    "ports": "shift", "warm": warm, "via": "b-walked", "rewarm": rewarm})
     return out
 
 
@@ -409,7 +447,8 @@ def explore_configs(chunk: list) -> list:
                     viols[key] = (what, {"cfg": cfg, "schedule": list(sched), "seed": _SEED, "depth": _DEPTH})
             if r.get("introduced"):
                 introduced.add(r["introduced"])
-                sigs.add(core.digest((r["obs"][:4], cfg["ports"], cfg["warm"], cfg["via"], r["trace"])))
+                sigs.add(core.digest((r["obs"][:4], cfg["ports"], cfg["warm"], cfg["via"], cfg["rewarm"],
+                                      r["trace"])))
                 classes.add(r["obs"])
             if sample is None:
                 sample = {"cfg": cfg, "schedule": list(sched), "introduced": r.get("introduced"),
@@ -424,7 +463,7 @@ def explore_configs(chunk: list) -> list:
 
 
 def _cfg_rank(cfg: dict) -> tuple:
-    return (cfg["via"] != "x-walked", cfg["k"], cfg["warm"] != "warm", cfg["style"] != "old", cfg["ports"] != "shift", cfg["placement"],
+    return (cfg["rewarm"], cfg["via"] != "x-walked", cfg["k"], cfg["warm"] != "warm", cfg["style"] != "old", cfg["ports"] != "shift", cfg["placement"],
             cfg["ta"], cfg["tc"], cfg["pick"])
 
 
@@ -486,7 +525,8 @@ def run(ctx: core.Ctx) -> core.Report:
                                                                "same box (3 cone kinds)"],
                    "styles": sorted({c["style"] for c in cfgs}), "candidates": sorted({c["k"] for c in cfgs}),
                    "port_modes": sorted({c["ports"] for c in cfgs}), "requester": sorted({c["warm"] for c in cfgs}),
-                   "introducer_learnt_peer_by": sorted({c["via"] for c in cfgs})},
+                   "introducer_learnt_peer_by": sorted({c["via"] for c in cfgs}),
+                   "requests_to_introducer_before_round": sorted({c["rewarm"] for c in cfgs})},
     }
     return core.Report(LEVEL, cov, violations, [
         "NAT model: endpoint-independent mapping, filtering none/full-cone/address-restricted/port-restricted, LAN "
